@@ -98,6 +98,11 @@ func newResultGroupJob[T, R any](bufferSize int) *resultGroupJob[T, R] {
 		wgc: helpers.NewWgCounter(bufferSize),
 	}
 
+	// the stream is closed by the last item that finishes; an empty batch has none
+	if bufferSize == 0 {
+		gj.Response.Close()
+	}
+
 	return gj
 }
 
@@ -163,7 +168,7 @@ type EnqueuedErrGroupJob interface {
 }
 
 func newErrorGroupJob[T any](bufferSize int) *errorGroupJob[T] {
-	return &errorGroupJob[T]{
+	gj := &errorGroupJob[T]{
 		errorJob: errorJob[T]{
 			job: job[T]{
 				wg: sync.WaitGroup{},
@@ -172,6 +177,13 @@ func newErrorGroupJob[T any](bufferSize int) *errorGroupJob[T] {
 		},
 		wgc: helpers.NewWgCounter(bufferSize),
 	}
+
+	// the stream is closed by the last item that finishes; an empty batch has none
+	if bufferSize == 0 {
+		gj.Response.Close()
+	}
+
+	return gj
 }
 
 func (gj *errorGroupJob[T]) NumPending() int {
